@@ -92,6 +92,31 @@ def step (line : String) : String :=
       | some fs => toHex (Cppcheck.Sarif.sarifDefault ver fs)
       | none => "bad-op"
     | _, _ => "bad-op"
+  | "strc" :: brk :: vb :: tf :: tl :: k :: r =>
+    -- toString with source files: k triples  <origfile> <line> <text of that line as readCode shows it>  then the finding
+    let rec triples : Nat → List String → Option (List (Str × Int × Str) × List String)
+      | 0, r => some ([], r)
+      | n + 1, o :: l :: t :: r =>
+        match fromHex o, l.toInt?, fromHex t, triples n r with
+        | some o, some l, some t, some (ts, r') => some ((o, l, t) :: ts, r')
+        | _, _, _, _ => none
+      | _, _ => none
+    match fromHex tf, fromHex tl, k.toNat? with
+    | some tf, some tl, some k =>
+      match triples k r with
+      | some (ts, r') =>
+        match parseFinding r' with
+        | some (f, []) =>
+          let files : Str → Int → Str := fun path line =>
+            match ts.find? (fun t => t.1 == path && t.2.1 == line) with
+            | some t => t.2.2
+            | none => []
+          match Cppcheck.Template.toString (brk == "1") (Cppcheck.Template.srcOf files) f (vb == "1") tf tl with
+          | some t => toHex t
+          | none => "hang"
+        | _ => "bad-op"
+      | none => "bad-op"
+    | _, _, _ => "bad-op"
   | "std" :: brk :: vb :: tf :: tl :: n :: r =>
     -- StdLogger duplicate filter keyed by the text rendering: indices of the findings handed to the writer
     match fromHex tf, fromHex tl, n.toNat? with
